@@ -193,7 +193,7 @@ class Spec:
         self.loops[(qual, ordinal)] = ls
         return ls
 
-    def lemma(self, file, name, params=None, props=(), requires=None):
+    def lemma(self, file, name, params=None, props=(), requires=None, **kw):
         import os
         path = os.path.join(os.path.dirname(os.path.dirname(os.path.abspath(__file__))), file)
         key = 'lemmafile:' + file
@@ -205,7 +205,7 @@ class Spec:
             raise SpecError('no lemma %s in %s' % (name, file))
         qual = 'lemma:' + name
         self.lemmas[qual] = (m, m.functions[name])
-        c = Contract(qual, params=params, requires=requires, props=props)
+        c = Contract(qual, params=params, requires=requires, props=props, **kw)
         c.is_lemma = True
         self.contracts[qual] = c
         return c
@@ -782,6 +782,9 @@ class Spec:
                 return result
             exc = exits[which]
             ex = ExcV(exc, [], implicit=False)
+            for (ecls, fname), FT in getattr(self, 'exc_field_types', {}).items():
+                if ecls == exc:
+                    ex.fields[fname] = X.fresh(FT, 'exc_' + fname)
             env2 = dict(env)
             env2['exc'] = ex
             for name, text, role in ct.raises[exc]:
